@@ -46,6 +46,13 @@ META = {
                    'statement of the conservation laws and of the ideal-gas sound speed in harness/C12.py.'),
 }
 
+# The framework hashes str(<z3 claim>) to count distinct claims.  z3's Python pretty-printer needs seconds per claim on the
+# terms of this property (most of an obligation's wall time); the C printer gives the same information in milliseconds.
+# Only affects the processes that import this harness (./check C12 forks one per obligation).
+import z3 as _z3
+_z3.ExprRef.__str__ = lambda self: self.sexpr()
+_z3.ExprRef.__repr__ = lambda self: self.sexpr()
+
 RS = 'exactpack.solvers.radshocks.nED_radshocks'
 RK = 'exactpack.solvers.radshocks.radshock'
 UT = 'exactpack.solvers.radshocks.utils'
@@ -423,26 +430,34 @@ class Rew(object):
     """Rewriting of claim terms before they go to z3 (symbolic mode; identity on floats).
     `let(value, 'name')` generalises: every occurrence of the term of `value` becomes a fresh variable, so a claim proved
     afterwards holds for ALL values of that sub-expression (sound for unsat; a sat witness is replayed on the real code).
-    `let(value, other)` rewrites with an equality that is itself proved as a separate claim of the same obligation."""
+    `let(value, other)` rewrites with an equality that is itself proved as a separate claim of the same obligation.
+    Rewrites are applied in stages; the keys of a later stage are terms as they look after the earlier stages."""
 
     def __init__(self, cx, base=None):
         self.sym = cx.symbolic
-        self.map = dict(base.map) if base is not None else {}
+        self.stages = [dict(m) for m in base.stages] if base is not None else [{}]
+
+    def _apply(self, t, upto=None):
+        for m in self.stages[:upto]:
+            if m:
+                t = T.substitute(t, m)
+        return t
+
+    def stage(self):
+        self.stages.append({})
+        return self
 
     def let(self, value, to):
         if self.sym:
-            t = term_of(value)
+            t = self._apply(term_of(value), len(self.stages) - 1)
             if t.op not in ('const', 'var'):
-                self.map[t] = T.var(to) if isinstance(to, str) else term_of(to)
+                self.stages[-1][t] = T.var(to) if isinstance(to, str) else term_of(to)
         return self
 
     def __call__(self, v):
         if not self.sym:
             return v
-        return SymReal(T.substitute(term_of(v), self.map))
-
-    def var(self, name, concrete):
-        return SymReal(T.var(name)) if self.sym else concrete
+        return SymReal(self._apply(term_of(v)))
 
 
 def near(cx, a, b, tol=1e-9):
@@ -700,6 +715,34 @@ class LazyCmp(np.ndarray):
         return self._cmp(o, lambda x, y: x != y)
 
 
+def respellings(root, target, tries=3):
+    """sub-terms of `root' that take the value of `target' at a few random points: CANDIDATES for being another spelling
+    of the same quantity (each candidate is then proved equal by z3 as a claim of its own before it is rewritten)"""
+    import random
+    rng = random.Random(7)
+    names = sorted(T.free_vars([root, target]))
+    envs, tv = [], []
+    while len(envs) < tries:
+        e = {n: rng.uniform(1.1, 2.9) for n in names}
+        try:
+            v = T.evalf(target, e)
+        except Exception:
+            continue
+        envs.append(e)
+        tv.append(v)
+    out = []
+    for n in T.postorder(root):
+        if n is target or n.op in ('const', 'var'):
+            continue
+        try:
+            vals = [T.evalf(n, e) for e in envs]
+        except Exception:
+            continue
+        if all(abs(a - b) <= 1e-9 * max(1.0, abs(a)) for a, b in zip(vals, tv)):
+            out.append(n)
+    return out
+
+
 def sqrt_nodes(t):
     """distinct square-root sub-terms of a term"""
     return [n for n in T.postorder(t) if n.op == 'pow' and n.args[1] is T.HALF]
@@ -834,15 +877,28 @@ class FluxED(Obligation):
             # dxdT) with differently associated discriminants: prove the discriminants equal, then name their common root
             flux = u * (rho * u * u / 2 + rho * e + p) + P0 * C0 * Fr
             Rw = Rew(cx, R0)
+            okr = okP
             if cx.symbolic:
-                roots = sqrt_nodes(term_of(R0(flux)))
+                Rw.stage()
+                roots = sqrt_nodes(term_of(Rw(flux)))
                 for j, n_ in enumerate(roots):
                     if j:
                         cx.eq('discriminant of rho(T) in dxdT == discriminant in rho() at the %s node' % nm,
                               SymReal(n_.args[0]), SymReal(roots[0].args[0]), when=okP)
-                    Rw.map[n_] = T.var('wdisc%d' % i)
-            cx.eq('total energy flux (with radiation flux) at the %s node == upstream value' % nm, Rw(flux), en_up,
-                  when=okP, scale=sc(cx, u * rho * u * u / 2, u * rho * e, u * p, P0 * C0 * Fr))
+                    Rw.stages[-1][n_] = T.var('wdisc%d' % i)
+                # ... and every other spelling of rho(T) inside the flux term, proved equal to the profile density, then
+                # the density generalised to a free variable (the energy balance is structural: it holds for any density)
+                Rw.stage()
+                tr_ = term_of(Rw(rho))
+                for n_ in respellings(term_of(Rw(flux)), tr_):
+                    cx.eq('rho(T) as respelled inside dxdT/sigma_t == profile density at the %s node' % nm, SymReal(n_),
+                          SymReal(tr_), when=okP)
+                    Rw.stages[-1][n_] = T.var('r%d' % i)
+                Rw.stages[-1][tr_] = T.var('r%d' % i)
+                okr = okP & pos(cx, SymReal(T.var('r%d' % i)))
+            fl = Rw(flux)
+            cx.eq('total energy flux (with radiation flux) at the %s node == upstream value' % nm, fl, en_up,
+                  when=okr, scale=sc(cx, u * rho * u * u / 2, u * rho * e, u * p, P0 * C0 * Fr))
 
 
 def obligations(tier):
